@@ -1123,6 +1123,118 @@ def yield_from_genexp(program, log):
         rewrite(f.node.body, f.where)
 
 
+def copy_on_write_sets(program, log):
+    """`self.T[k] = self.T[k] - {e}` and `self.T[k] = self.T.get(k, set()) | {e}`
+    leave the table with the same content as the in-place `discard` / `add`;
+    they are rewritten to those (marked `_from_cow`, so that rules about
+    iteration can tell that the published sets are never mutated)."""
+    def tbl(n):
+        return isinstance(n, ast.Attribute) and isinstance(
+            n.value, ast.Name) and n.value.id == 'self'
+
+    def rewrite(body, where):
+        for i, st in enumerate(body):
+            if isinstance(st, ast.Assign) and len(st.targets) == 1 \
+                    and isinstance(st.targets[0], ast.Subscript) and tbl(
+                        st.targets[0].value) and isinstance(
+                            st.value, ast.BinOp) and isinstance(
+                                st.value.op, (ast.Sub, ast.BitOr)) \
+                    and isinstance(st.value.right, ast.Set) and len(
+                        st.value.right.elts) == 1:
+                T = st.targets[0].value
+                k = st.targets[0].slice
+                left = st.value.left
+                same_slot = isinstance(left, ast.Subscript) and dotted(
+                    left.value) == dotted(T) and ast.dump(
+                        left.slice) == ast.dump(k)
+                via_get = isinstance(left, ast.Call) and isinstance(
+                    left.func, ast.Attribute) and left.func.attr == 'get' \
+                    and dotted(left.func.value) == dotted(T) and len(
+                        left.args) == 2 and ast.dump(left.args[0]) == \
+                    ast.dump(k) and isinstance(left.args[1], ast.Call) \
+                    and dotted(left.args[1].func) == 'set' \
+                    and not left.args[1].args
+                elt = st.value.right.elts[0]
+                new = None
+                if isinstance(st.value.op, ast.Sub) and same_slot:
+                    new = ast.Call(ast.Attribute(ast.Subscript(
+                        T, k, ast.Load()), 'discard', ast.Load()), [elt], [])
+                elif isinstance(st.value.op, ast.BitOr) and (same_slot
+                                                             or via_get):
+                    recv = ast.Subscript(T, k, ast.Load()) if same_slot \
+                        else ast.Call(ast.Attribute(T, 'setdefault',
+                                                    ast.Load()),
+                                      [k, ast.Call(ast.Name('set', ast.Load()),
+                                                   [], [])], [])
+                    new = ast.Call(ast.Attribute(recv, 'add', ast.Load()),
+                                   [elt], [])
+                if new is not None:
+                    new._from_cow = True
+                    ex = ast.copy_location(ast.Expr(new), st)
+                    ast.fix_missing_locations(ex)
+                    body[i] = ex
+                    program.cow.add(T.attr)
+                    log.append(f'{where}: copy-on-write update of self.'
+                               f'{T.attr}[..] read as the in-place update')
+            for fld in ('body', 'orelse', 'finalbody'):
+                sub_ = getattr(body[i], fld, None)
+                if isinstance(sub_, list) and sub_ and isinstance(
+                        sub_[0], ast.stmt):
+                    rewrite(sub_, where)
+            for h in getattr(body[i], 'handlers', []) or []:
+                rewrite(h.body, where)
+    for f in program.all_functions():
+        rewrite(f.node.body, f.where)
+
+
+def flattened_chainmaps(program, log):
+    """`d = {}; for layer in reversed(X.maps): d.update(layer)` builds what
+    `dict(X)` builds for a ChainMap X (the first layer wins)."""
+    def rewrite(body, where):
+        i = 0
+        while i + 1 < len(body):
+            a, lp = body[i], body[i + 1]
+            if isinstance(a, ast.Assign) and len(a.targets) == 1 \
+                    and isinstance(a.targets[0], ast.Name) and isinstance(
+                        a.value, ast.Dict) and not a.value.keys \
+                    and isinstance(lp, ast.For) and not lp.orelse \
+                    and isinstance(lp.target, ast.Name) and len(
+                        lp.body) == 1 and isinstance(lp.iter, ast.Call) \
+                    and dotted(lp.iter.func) == 'reversed' and len(
+                        lp.iter.args) == 1 and isinstance(
+                            lp.iter.args[0], ast.Attribute) \
+                    and lp.iter.args[0].attr == 'maps':
+                d = a.targets[0].id
+                c = lp.body[0].value if isinstance(lp.body[0],
+                                                   ast.Expr) else None
+                if isinstance(c, ast.Call) and isinstance(
+                        c.func, ast.Attribute) and c.func.attr == 'update' \
+                        and isinstance(c.func.value, ast.Name) \
+                        and c.func.value.id == d and len(c.args) == 1 \
+                        and isinstance(c.args[0], ast.Name) \
+                        and c.args[0].id == lp.target.id:
+                    new = ast.Assign([ast.Name(d, ast.Store())], ast.Call(
+                        ast.Name('dict', ast.Load()),
+                        [lp.iter.args[0].value], []))
+                    ast.copy_location(new, a)
+                    ast.fix_missing_locations(new)
+                    body[i:i + 2] = [new]
+                    log.append(f'{where}: layers merged bottom-up into `{d}` '
+                               'read as dict(<ChainMap>)')
+                    continue
+            i += 1
+        for st in body:
+            for fld in ('body', 'orelse', 'finalbody'):
+                sub_ = getattr(st, fld, None)
+                if isinstance(sub_, list) and sub_ and isinstance(
+                        sub_[0], ast.stmt):
+                    rewrite(sub_, where)
+            for h in getattr(st, 'handlers', []) or []:
+                rewrite(h.body, where)
+    for f in program.all_functions():
+        rewrite(f.node.body, f.where)
+
+
 def norm_name(a):
     return a.id if isinstance(a, ast.Name) else None
 
@@ -1130,9 +1242,11 @@ def norm_name(a):
 def run(program):
     log = []
     program.records = {}
+    program.cow = set()
     for step in (explicit_properties, walrus_out, inline_simple_decorators,
                  inline_aliases, slices_of_islice, pop_last_idiom,
-                 bool_dispatch_tables, yield_from_genexp,
+                 bool_dispatch_tables, yield_from_genexp, copy_on_write_sets,
+                 flattened_chainmaps,
                  unfold_records,
                  inline_private_constants, loops_to_comprehensions,
                  rename_private):
